@@ -265,4 +265,6 @@ def run(repo, tier):
                'gaps also come from the npixels filter; with gaps the merge advances max_label by len(new_labels) and the next parent reuses a label')
     apply_specs(repo, res, [('photutils.segmentation.deblend.deblend_sources', 'stmt', 'deblend_label_map = {}',
                              'the parent->children map starts empty (records of an earlier deblending of the input do not leak in)')])
+    from .common import run_generic_pack
+    run_generic_pack(repo, res, PROP, ())
     return res
